@@ -441,6 +441,44 @@ func c14Construct(r *mon.Run, ai *apiInfo, name string, rep int64) {
 		}
 		checkCallbacks(a4, "Group method", func() { rawFile(blk) })
 	}
+	// the Group form with arguments that are used again: two calls given the very same item(s), each continued by a
+	// token of its own — every call appends a statement of its own, like g.Add(fn(items...)) does
+	if ft.IsVariadic() && ft.In(ft.NumIn()-1).Elem() == tCode && ft.NumIn() == 1 {
+		for _, single := range []bool{false, true} {
+			build := func(viaAdd bool) (string, string) {
+				_, items := mk()
+				if single {
+					items = []jen.Code{jen.Id("onlyQ").Dot("recv")}
+				}
+				var p string
+				blk := jen.BlockFunc(func(g *jen.Group) {
+					for _, tail := range []string{"tail1Q", "tail2Q"} {
+						pp, what := mon.Guard(func() {
+							var st *jen.Statement
+							if viaAdd {
+								st = fn.Call(valuesOf(items))[0].Interface().(*jen.Statement)
+								g.Add(st)
+							} else {
+								st = gm.Func.Call(append([]reflect.Value{reflect.ValueOf(g)}, valuesOf(items)...))[0].Interface().(*jen.Statement)
+							}
+							st.Id(tail)
+						})
+						if pp {
+							p = what
+						}
+					}
+				})
+				out, _ := rawFile(blk)
+				return out, p
+			}
+			got, pg := build(false)
+			exp, pe := build(true)
+			if pg == "" && pe == "" && got != exp {
+				r.Violate("group-form-differs", c, "%s: two g.%s(items...) calls given the same item(s) (single statement: %v), each continued by a token, render\n%s\nbut g.Add(%s(items...)) twice renders\n%s", name, name, single, got, name, exp)
+			}
+			r.Count("group_form_with_reused_arguments", 1)
+		}
+	}
 	// …Func variant vs variadic base
 	if strings.HasSuffix(name, "Func") && ft.NumIn() > 0 && ft.In(ft.NumIn()-1) == tGroupFunc {
 		baseName := strings.TrimSuffix(name, "Func")
